@@ -3,12 +3,14 @@ pub mod explore;
 pub mod problems;
 pub mod report;
 pub mod run;
+pub mod twopass;
 pub mod util;
 
 pub mod regress;
 
 pub mod c03;
 pub mod c04;
+pub mod c05;
 pub mod c16;
 pub mod c17;
 pub mod c18;
